@@ -3,6 +3,7 @@ from . import _stream as S
 
 PROP = "C01"
 LEVEL = "exploration"
+BLOCK = 32   # neighbouring configurations share a worker process
 RULE = ("grid (complete for its box) + seeded random configurations of all "
         "ten classes incl. cost vectors and every finalisation point n, all "
         "permitted adjoint passes (multi-pass classes driven for 3/4 passes);"
